@@ -552,6 +552,24 @@ def instantiate(terms, rounds=5, templates=None):
                 x = t.args[0].args[0]
                 pk = Const("sorted_from!%s" % hashlib.sha1(str(t).encode()).hexdigest()[:10], INT)
                 new.append(Implies(And(Le(I(0), t.args[1]), Lt(t.args[1], Len(t.args[0]))), And(Le(I(0), pk), Lt(pk, Len(x)), Eq(t, Nth(x, pk)))))
+        # a sorted list is ascending: for every two positions at which the same sorted list is read
+        sorted_reads = {}
+        for t in list(allsub.values()):
+            if t.op == "seq.nth" and t.args[0].op == "sorted_int":
+                sorted_reads.setdefault(str(t.args[0]), {})[str(t.args[1])] = t
+        for ss, reads in sorted_reads.items():
+            rl = sorted(reads.items())
+            if len(rl) > 12:
+                rl = rl[:12]
+            for ia, ta in rl:
+                for ib, tb in rl:
+                    if ia == ib:
+                        continue
+                    kk = ("sorted-asc", ss, ia, ib)
+                    if kk in done_other:
+                        continue
+                    done_other.add(kk)
+                    new.append(Implies(And(Le(I(0), ta.args[1]), Le(ta.args[1], tb.args[1]), Lt(tb.args[1], Len(ta.args[0]))), Le(ta, tb)))
         def nth_rules(nth_terms):
             new = []
             # a sequence constant defined by a top-level equation (c == concatenation / spec function): its elements are the
